@@ -110,7 +110,8 @@ def run_modes_scenario(idx, sc, texts):
         twins = variant in (1, 3) and sc["form"] != "stdin"
         big = variant == 2 and sc["form"] in ("file", "files_from")
         for k, (f, cls) in enumerate(sorted(sc["class"].items())):
-            name = {0: "f1.pas", 1: "sub/f2.dpr", 2: "f3.PAS"}.get(k, f"g{k}.pas") if sc["form"] in ("dir", "files_from", "file") else f"f{k + 1}.pas"
+            names = [{0: "f1.pas", 1: "sub/f2.dpr", 2: "f3.PAS"}, {0: "a b.Dpk", 1: "deep/er/Gr\u00f6\u00dfe.pas", 2: "c.DPR"}][(idx // 4) % 2]
+            name = names.get(k, f"g{k}.pas") if sc["form"] in ("dir", "files_from", "file") else f"f{k + 1}.pas"
             if twins and k in (0, 2):
                 name = "Unit1.pas" if k == 0 else "unit1.pas"
             path = os.path.join(d, name)
@@ -119,6 +120,7 @@ def run_modes_scenario(idx, sc, texts):
                 contents[f] = None
                 continue
             if cls == "dangling":
+                os.makedirs(os.path.dirname(path), exist_ok=True)
                 os.symlink(os.path.join(d, "nowhere.pas"), path)
                 contents[f] = None
                 continue
